@@ -53,18 +53,26 @@ constexpr std::size_t caps[8]            = {0, 1, 7, 15, 16, 31, 255, 256};
 constexpr char const* const char_names[5] = {"char", "wchar_t", "char8_t", "char16_t", "char32_t"};
 
 // capacities {7,15,16} of one character type (quick + thorough) / the remaining five capacities (thorough only)
-template <typename Char>
-auto pick_cap(std::uint32_t ci, bool mid_set) -> RunFn
+template <typename Char, bool MidSet>
+auto pick_cap(std::uint32_t ci) -> RunFn
 {
-    switch (ci) {
-    case 0: return mid_set ? nullptr : &run_cfg<Char, 0>;
-    case 1: return mid_set ? nullptr : &run_cfg<Char, 1>;
-    case 2: return mid_set ? &run_cfg<Char, 7> : nullptr;
-    case 3: return mid_set ? &run_cfg<Char, 15> : nullptr;
-    case 4: return mid_set ? &run_cfg<Char, 16> : nullptr;
-    case 5: return mid_set ? nullptr : &run_cfg<Char, 31>;
-    case 6: return mid_set ? nullptr : &run_cfg<Char, 255>;
-    default: return mid_set ? nullptr : &run_cfg<Char, 256>;
+    // if constexpr: a run-time switch would instantiate all eight capacities in every part
+    if constexpr (MidSet) {
+        switch (ci) {
+        case 2: return &run_cfg<Char, 7>;
+        case 3: return &run_cfg<Char, 15>;
+        case 4: return &run_cfg<Char, 16>;
+        default: return nullptr;
+        }
+    } else {
+        switch (ci) {
+        case 0: return &run_cfg<Char, 0>;
+        case 1: return &run_cfg<Char, 1>;
+        case 5: return &run_cfg<Char, 31>;
+        case 6: return &run_cfg<Char, 255>;
+        case 7: return &run_cfg<Char, 256>;
+        default: return nullptr;
+        }
     }
 }
 
@@ -96,21 +104,21 @@ auto runner(std::uint32_t cfg) -> RunFn
         }
     }
 #elif C04_PART == 2
-    if (chi == 1) { return pick_cap<wchar_t>(ci, true); }
+    if (chi == 1) { return pick_cap<wchar_t, true>(ci); }
 #elif C04_PART == 3
-    if (chi == 2) { return pick_cap<char8_t>(ci, true); }
+    if (chi == 2) { return pick_cap<char8_t, true>(ci); }
 #elif C04_PART == 4
-    if (chi == 3) { return pick_cap<char16_t>(ci, true); }
+    if (chi == 3) { return pick_cap<char16_t, true>(ci); }
 #elif C04_PART == 5
-    if (chi == 4) { return pick_cap<char32_t>(ci, true); }
+    if (chi == 4) { return pick_cap<char32_t, true>(ci); }
 #elif C04_PART == 6
-    if (chi == 1) { return pick_cap<wchar_t>(ci, false); }
+    if (chi == 1) { return pick_cap<wchar_t, false>(ci); }
 #elif C04_PART == 7
-    if (chi == 2) { return pick_cap<char8_t>(ci, false); }
+    if (chi == 2) { return pick_cap<char8_t, false>(ci); }
 #elif C04_PART == 8
-    if (chi == 3) { return pick_cap<char16_t>(ci, false); }
+    if (chi == 3) { return pick_cap<char16_t, false>(ci); }
 #elif C04_PART == 9
-    if (chi == 4) { return pick_cap<char32_t>(ci, false); }
+    if (chi == 4) { return pick_cap<char32_t, false>(ci); }
 #elif C04_PART == 100 // development build only: two configurations
     if (chi == 0 && ci == 2) { return &run_cfg<char, 7>; }
     if (chi == 0 && ci == 4) { return &run_cfg<char, 16>; }
